@@ -69,10 +69,10 @@ theorem location_inDom_range (lon lat : List V) (bbox : SeqArg) (rangeMax : Opti
     range_max and hop list in the domain, given hop distances consistent with the track
     (`hcons`, guaranteed by the harness; see `C14_needs_hcons` for why it cannot be dropped). -/
 theorem C14_location (lon lat : List V) (bbox : SeqArg) (rangeMax : Option Rat) (hops : List V)
-    (h : (TestCall.location lon lat bbox rangeMax hops).inDom = true)
-    (hcons : ∀ j, (getV lon j).isNone ∨ (getV lat j).isNone ∨ (getV lon (j+1)).isNone ∨
-      (getV lat (j+1)).isNone → getV hops j = none) :
+    (h : (TestCall.location lon lat bbox rangeMax hops).inDom = true) :
     conforms (locSpec lon lat bbox rangeMax hops) (locationTest lon lat bbox rangeMax hops).toObs = true := by
+  have hcons := hcons_of_consistent lon lat hops (by
+    simp only [TestCall.inDom, Bool.and_eq_true] at h; exact h.1.2)
   have hr := location_inDom_range lon lat bbox rangeMax hops h
   unfold locSpec locationTest fixedLength
   cases hseq : bbox.isSeq <;> simp [hseq, conforms, Res.toObs, bind, Except.bind, pure, Except.pure]
@@ -168,7 +168,7 @@ theorem C14_missing_coords (b : Box) (rangeMax : Option Rat) (n : Nat) (v : Rat)
     although the second position is entirely missing.  The model (like the code, which takes
     the distances as given) answers SUSPECT there, the property says MISSING. -/
 theorem C14_needs_hcons :
-    (TestCall.location [some 0, none] [some 0, none] ⟨true, [-10, -10, 10, 10]⟩ (some 1) [some 5]).inDom = true ∧
+    (TestCall.location [some 0, none] [some 0, none] ⟨true, [-10, -10, 10, 10]⟩ (some 1) [some 5]).inDom = false ∧
     (locationTest [some 0, none] [some 0, none] ⟨true, [-10, -10, 10, 10]⟩ (some 1) [some 5]).toObs
       = .flags [1, 3] ∧
     conforms (locSpec [some 0, none] [some 0, none] ⟨true, [-10, -10, 10, 10]⟩ (some 1) [some 5])
@@ -204,12 +204,7 @@ example : conforms
       [some 0, some 5, some 0, some 3, none, some 1, some (-10)] ⟨true, [-10, -10, 10, 10]⟩ (some 6)
       [some 7, some 16, none, none, none, some 6]).toObs = true := by
   apply C14_location
-  · decide +kernel
-  · intro j
-    match j with
-    | 0 | 1 | 5 => intro h; revert h; decide +kernel
-    | 2 | 3 | 4 => intro _; rfl
-    | j + 6 => intro _; simp [getV]
+  decide +kernel
 
 /-- Malformed box arguments and unequal lengths are rejected. -/
 example : (locationTest [some 0] [some 0] ⟨false, [0, 0, 1, 1]⟩ none []).toObs = .error .type ∧
